@@ -80,8 +80,10 @@ func (c *Connection) handleCallReq(frame *Frame) bool {
 	}
 
 	// Close may have been called between the time we checked the state and us creating the exchange.
+	// The call is refused like any other call arriving on a closing connection, not silently dropped.
 	if c.readState() != connectionActive {
 		mex.shutdown()
+		c.SendSystemError(frame.Header.ID, callReqSpan(frame), ErrChannelClosed)
 		return true
 	}
 
